@@ -1058,12 +1058,19 @@ class SortValues(BaseSetIndexSortValues):
     def _simplify_up(self, parent, dependents):
         from dask_expr._expr import Filter, Head, Tail
 
-        if isinstance(parent, Head):
+        # NFirst / NLast sort by the columns and the direction only
+        plain_sort = (
+            self.na_position == "last"
+            and self.operand("sort_function") is None
+            and not self.operand("sort_function_kwargs")
+            and not self.ignore_index
+        )
+        if isinstance(parent, Head) and plain_sort:
             return NFirst(
                 self.frame, n=parent.n, _columns=self.by, ascending=self.ascending
             )
 
-        if isinstance(parent, Tail):
+        if isinstance(parent, Tail) and plain_sort:
             return NLast(
                 self.frame, n=parent.n, _columns=self.by, ascending=self.ascending
             )
